@@ -7,10 +7,13 @@ CONSTANTS
   MaxHist = 3
   Backup = "any"
   Scenes <- Pair
+  DispWrite = "every"
 INVARIANT TypeOK
 INVARIANT DeviceCells
 INVARIANT Range
 INVARIANT DiscreteExact
 INVARIANT OutsideUnchanged
 INVARIANT HistoryIndependent
+INVARIANT DispCells
+INVARIANT DispOutsideUnchanged
 CHECK_DEADLOCK TRUE
